@@ -290,7 +290,11 @@ class Flow:
         return True
 
     def attr_store(self, d, value_rf):
-        pass  # attribute values are not forwarded (kept as atoms); see rules
+        """With forward_attrs, a later read of the same attribute path sees
+        the stored value (so `old = self.x; self.x = f(old)` distinguishes old
+        and new).  Off by default: most rules want attributes symbolic."""
+        if getattr(self.conv, 'forward_attrs', False):
+            self.env['@' + self.conv.canon(d)] = value_rf
 
     def stmt(self, s):
         t = self.tab
@@ -326,6 +330,9 @@ class Flow:
                     opn, v = 'Add', -v
                 self.ev('store', s, target=trf, target_ast=s.target, op=opn,
                         value=v)
+                d = dotted(s.target)
+                if d is not None and getattr(self.conv, 'forward_attrs', False) and opn == 'Add':
+                    self.env['@' + self.conv.canon(d)] = trf + v
         elif isinstance(s, ast.Expr):
             if isinstance(s.value, (ast.Yield, ast.YieldFrom)):
                 v = self.expr(s.value.value) if s.value.value else None
